@@ -605,36 +605,46 @@ def declare (vars : List String) : M Unit := do
   for v in vars do
     let _ ← addVar v none
 
-/-- `undeclare_vars(*vrs)`; returns the removed names (sorted) -/
-def undeclareVars (vrs : List String) : M (List String) := do
-  let m ← M.get
-  for v in vrs do
-    if !m.tbl.vars.contains v then M.throw .value
-  let nodeLevels := m.tbl.succ.foldl (fun acc _ n => if acc.contains n.lvl then acc else n.lvl :: acc) [m.nvars]
-  for v in vrs do
-    let l ← levelOfVar v
-    if nodeLevels.contains l then M.throw .value
-  let full := if vrs.isEmpty then nodeLevels else
-    m.tbl.vars.foldl (fun acc var l => if vrs.contains var || acc.contains l then acc else l :: acc) nodeLevels
-  let n := 1 + m.nvars
-  let kept := (List.range n).filter (full.contains ·)
-  let newLevels := kept.zipIdx
-  let rm := (m.tbl.vars.toList.filter fun (_, l) => !full.contains l).map (·.1)
-  let vars' : TreeMap String Nat := m.tbl.vars.foldl (fun acc var old =>
-    match newLevels.lookup old with
-    | some nw => if full.contains old then acc.insert var nw else acc
-    | none => acc) {}
+/-- `full_levels = {i for i, _, _ in self._succ.values()}`: the levels that carry a node,
+and the terminal's level (the terminal is an entry of `_succ`) -/
+def undeclNodeLevels (t : Tbl) : List Nat :=
+  t.succ.foldl (fun acc _ n => if acc.contains n.lvl then acc else n.lvl :: acc) [t.nvars]
+
+/-- `full_levels |= {level for var, level in self.vars.items() if var not in vrs}` when `vrs`
+is not empty -/
+def undeclFull (t : Tbl) (vrs : List String) : List Nat :=
+  if vrs.isEmpty then undeclNodeLevels t else
+    t.vars.foldl (fun acc var l => if vrs.contains var || acc.contains l then acc else l :: acc)
+      (undeclNodeLevels t)
+
+/-- `new_levels[i]` where `new_levels = {i: new for new, i in enumerate(i for i in range(n) if
+i in full_levels)}`: the number of kept levels below `i`; no entry (KeyError) for a level that
+is not kept -/
+def undeclNewLevel? (full : List Nat) (n : Nat) (i : Nat) : Option Nat :=
+  if i < n && full.contains i then some (((List.range i).filter (full.contains ·)).length) else none
+
+/-- the state after a successful `undeclare_vars` with kept levels `full` -/
+def undeclState (m : Mgr) (full : List Nat) : Mgr :=
+  let nl := undeclNewLevel? full (1 + m.nvars)
+  let vars' : TreeMap String Nat := m.tbl.vars.filterMap fun _ old => nl old
   let l2v' : TreeMap Nat String := vars'.foldl (fun acc var k => acc.insert k var) {}
-  let succ' : Except Err (TreeMap Nat Nd) := m.tbl.succ.foldl (fun acc u nd =>
-    match acc with
-    | .error e => .error e
-    | .ok s => match newLevels.lookup nd.lvl with
-      | some nw => .ok (s.insert u { nd with lvl := nw })
-      | none => .error .key) (.ok {})
-  let succ' ← liftE succ'
+  let succ' : TreeMap Nat Nd := m.tbl.succ.map fun _ nd => { nd with lvl := (nl nd.lvl).getD 0 }
   let pred' : TreeMap (List Int) Nat := succ'.foldl (fun acc u nd => acc.insert nd.key u) {}
-  M.set { m with tbl := { succ := succ', vars := vars', l2v := l2v' }, pred := pred', cache := {} }
-  return rm
+  { m with tbl := { succ := succ', vars := vars', l2v := l2v' }, pred := pred', cache := {} }
+
+/-- `undeclare_vars(*vrs)`; returns the removed names (sorted) -/
+def undeclareVars (vrs : List String) : M (List String) := fun m =>
+  if vrs.any (fun v => !m.tbl.vars.contains v) then (.error .value, m) else
+  let nodeLevels := undeclNodeLevels m.tbl
+  if vrs.any (fun v => match m.tbl.vars[v]? with
+      | some l => nodeLevels.contains l
+      | none => true) then (.error .value, m) else
+  let full := undeclFull m.tbl vrs
+  let rm := (m.tbl.vars.toList.filter fun (_, l) => !full.contains l).map (·.1)
+  -- `new_levels[i]` for the level of a node
+  if m.tbl.succ.toList.any (fun p => (undeclNewLevel? full (1 + m.nvars) p.2.lvl).isNone) then
+    (.error .key, m)
+  else (.ok rm, undeclState m full)
 
 /-! ### image / preimage -/
 
